@@ -32,8 +32,9 @@ VARIABLES l,        \* next line
           mcache,   \* object -> (key -> value): the cache as the hook reports it
           mabs,     \* object -> abstract cache of StateCache (key -> symbol), driven by Req events
           seqd,     \* the last sequentially computed phase diagram (a Diagram event)
+          hk,       \* <<object, request>> of the hook event on the previous line, <<>> otherwise (binding diagnostics only)
           cnt
-vars == <<l, keyref, getref, mcache, mabs, seqd, cnt>>
+vars == <<l, keyref, getref, mcache, mabs, seqd, hk, cnt>>
 
 E == Rec[l]
 Ev(name) == l <= NRec /\ E.ev = name /\ l' = l + 1
@@ -42,7 +43,7 @@ ObjOf(ctx) == ctx   \* context labels are object names
 
 Close(a, b) == FClose(a, b, RtolHist, FMax(FAbs(a), FAbs(b)), "1e-300")
 
-Init == /\ l = 1 /\ keyref = <<>> /\ getref = <<>> /\ mcache = <<>> /\ mabs = <<>> /\ seqd = <<>> /\ cnt = NoCount
+Init == /\ l = 1 /\ hk = <<>> /\ keyref = <<>> /\ getref = <<>> /\ mcache = <<>> /\ mabs = <<>> /\ seqd = <<>> /\ cnt = NoCount
 
 Begin == /\ Ev("Begin")
          /\ mcache' = ("o1" :> <<>>) /\ mabs' = ("o1" :> SC!Empty)
@@ -83,6 +84,9 @@ Req == /\ Ev("Req")
                        agree => Close(E.v, mcache[o][k]))
              /\ mabs' = [mabs EXCEPT ![o] = s.cache]
              /\ cnt' = BumpAll(cnt, {"requests"}
+                         \* binding of hook H1 to the harness: the line before a Req is the hook's report of that very access
+                         \* (counted, never a law: a cache that is bypassed is not a violation of C11, a silent hook is a tool error)
+                         \cup (IF hk = <<o, E.req>> THEN {"requests_with_hook_event"} ELSE {"requests_without_hook_event"})
                          \cup (IF E.hit = s.hit THEN {"hit_as_modelled"} ELSE {"hit_not_as_modelled"})
                          \cup (IF o \in DOMAIN mcache /\ DOMAIN mcache[o] = DOMAIN s.cache
                                THEN {"keys_as_modelled"} ELSE {"keys_not_as_modelled"}))
@@ -124,6 +128,7 @@ Diagram == /\ Ev("Diagram")
            /\ UNCHANGED <<keyref, getref, mcache, mabs>>
 
 Next == /\ (Begin \/ Refs \/ Cache \/ Req \/ Get \/ Clone \/ Diagram)
+        /\ hk' = IF E.ev = "Cache" THEN <<ObjOf(E.ctx), E.req>> ELSE <<>>
         /\ (l' > NRec => PrintT("STATS " \o ToJson(cnt')))
 
 TraceSpec == Init /\ [][Next]_vars
